@@ -116,7 +116,7 @@ const VAL: &[&str] = &["calc(", "min(", "CALC(", "Clamp(", "1px", " + ", " - ", 
 const WRAP: &[(&str, &str)] = &[("", ""), ("@media (min-width:1rpx){", "}"), ("@MEDIA (min-width:1px){", "}"), ("@layer x{", "}"), ("@supports selector(.c .d){", "}"), ("@container n (min-width: calc(1px + 2rpx)){", "}"), ("@starting-style{", "}"), ("@scope (.c) to (.d){", "}"), ("@STARTING-STYLE{", "}"), ("@document url(x){", "}")];
 /// at-rules whose block holds declarations (or keyframe / margin-box blocks of declarations), never selectors
 const DECL_WRAP: &[(&str, &str)] = &[("@page{width:", "}"), ("@page :first{margin:0 ", "}"), ("@font-face{width:", "}"), ("@keyframes k{from{width:", "}}"), ("@page{@top-left{width:", "}}"), ("@property --x{initial-value:", "}"), ("@counter-style c{pad:", "}")];
-const BOUND: &str = "selectors of <= 4 token-level pieces from 15 (dot, identifiers, combinators, colon, star, :is/:not, brackets, =, hash; plain, under @media and inside x:is(..)), selectors of <= 4 pieces from 14 selector pieces (classes, combinators, :not/:is/::slotted/:nth-child(.. of ..), comments) under 10 wrappers (none, @media, @MEDIA, @layer, @supports selector(), @container with calc, @starting-style, @STARTING-STYLE, @scope, @document), and declaration values of <= 4 pieces from 20 value pieces (calc, min, CALC, Clamp, nested parentheses, var, rpx, comments, `;` also doubled and leading, !important, a hash, a second declaration, signed numbers), and values of <= 2 pieces inside 7 declaration at-rules (@page, @font-face, @keyframes, margin boxes, @property, @counter-style); selectors of <= 2 pieces before and after `:host` rules with :host conversion, prefix and prefix sign on; only inputs the transformer accepts without a warning; class prefixes `p` and the empty prefix";
+const BOUND: &str = "selectors of <= 4 token-level pieces from 15 (dot, identifiers, combinators, colon, star, :is/:not, brackets, =, hash; plain, under @media and inside x:is(..)), selectors of <= 4 pieces from 14 selector pieces (classes, combinators, :not/:is/::slotted/:nth-child(.. of ..), comments) under 10 wrappers (none, @media, @MEDIA, @layer, @supports selector(), @container with calc, @starting-style, @STARTING-STYLE, @scope, @document), and declaration values of <= 4 pieces from 20 value pieces (calc, min, CALC, Clamp, nested parentheses, var, rpx, comments, `;` also doubled and leading, !important, a hash, a second declaration, signed numbers), and values of <= 2 pieces inside 7 declaration at-rules (@page, @font-face, @keyframes, margin boxes, @property, @counter-style); selectors of <= 2 pieces before and after `:host` rules with :host conversion, prefix and prefix sign on; the JS binding constructor agrees with from_css for 4 prefixes (none, empty, ASCII, CJK) x :host conversion on/off; only inputs the transformer accepts without a warning; class prefixes `p` and the empty prefix";
 
 fn well_nested(css: &str) -> bool {
     let mut st = vec![];
@@ -160,6 +160,24 @@ fn check_host(rule: &str) -> Option<(String, String)> {
     }
     None
 }
+/// the other public entry point (the constructor the JS / wasm binding exports) must hand its options to from_css unchanged:
+/// no prefix, the EMPTY prefix (`.a` -> `.--a`) and a non-empty one, with and without :host conversion
+fn check_binding(css: &str) -> Option<(String, String)> {
+    for prefix in [None, Some(""), Some("p"), Some("\u{9875}")] {
+        for host in [false, true] {
+            let t = StyleSheetTransformer::from_css("p.wxss", css, StyleSheetOptions { class_prefix: prefix.map(|s| s.to_string()), rpx_ratio: 750., convert_host: host, ..Default::default() });
+            let (n, l) = t.output_and_low_priority_output();
+            let (mut sn, mut sl) = (String::new(), String::new());
+            n.write_str(&mut sn).unwrap();
+            l.write_str(&mut sl).unwrap();
+            let j = glass_easel_stylesheet_compiler::js_bindings::StyleSheetTransformer::new("p.wxss", css, prefix.map(|s| s.to_string()), 750., host);
+            if j.get_content() != sn || j.get_low_priority_content() != sl {
+                return Some((format!("js_bindings::StyleSheetTransformer::new(.., {:?}, 750, {}) gives {:?} / {:?}", prefix, host, j.get_content(), j.get_low_priority_content()), format!("{:?} / {:?} (from_css with the same options)", sn, sl)));
+            }
+        }
+    }
+    None
+}
 fn combos(pieces: &[&str], maxd: usize) -> Vec<String> {
     let mut out = vec![];
     let n = pieces.len();
@@ -199,6 +217,13 @@ pub fn search() -> Outcome {
     }
     for sel in combos(SEL, 2) {
         count += 1;
+        let css = format!("{}{{width:2rpx}}:host{{top:0}}@media x{{{}{{width:1px}}}}", sel, sel);
+        if let Some((got, want)) = check_binding(&css) {
+            return Outcome { found: true, input: format!("binding:{}", css), observed: got, expected: want, evaluations: count, bound: BOUND.into() };
+        }
+    }
+    for sel in combos(SEL, 2) {
+        count += 1;
         let rule = format!("{}{{width:2rpx}}", sel);
         let r2 = rule.clone();
         match std::panic::catch_unwind(move || check_host(&r2)) {
@@ -210,6 +235,12 @@ pub fn search() -> Outcome {
     Outcome::none(count, BOUND)
 }
 pub fn run(input: &str) -> Outcome {
+    if let Some(css) = input.strip_prefix("binding:") {
+        return match check_binding(css) {
+            Some((got, want)) => Outcome { found: true, input: input.into(), observed: got, expected: want, evaluations: 1, bound: "single input".into() },
+            None => Outcome { found: false, input: input.into(), observed: String::new(), expected: String::new(), evaluations: 1, bound: "single input".into() },
+        };
+    }
     if let Some(rule) = input.strip_prefix("host:") {
         return match check_host(rule) {
             Some((got, want)) => Outcome { found: true, input: input.into(), observed: got, expected: want, evaluations: 1, bound: "single input".into() },
